@@ -238,4 +238,201 @@ theorem mutateOne_unknown (c : Cfg) (fs : FS) (m : Mutation)
   simp only [List.mem_cons, List.mem_nil_iff, or_false, not_or] at h
   simp [mutateOne, mutatorOf, h]
 
+
+
+/-! ### `DirBit` (mode bit 31 only on directories) is kept by creation -/
+
+theorem dirBit_create {fs : FS} (hb : DirBit fs) (d : Nat) (n : Name) (nd : Inode)
+    (hd : (fs.node d).dir = true) (hn : nd.mode.testBit 31 = true → nd.dir = true) :
+    DirBit (fs.create d n nd).1 := by
+  have hdl := dir_lt fs d hd
+  intro i hm
+  by_cases h1 : i = fs.nodes.length
+  · subst h1; rw [node_create_new fs d n nd hd] at hm ⊢; exact hn hm
+  · by_cases h2 : i = d
+    · subst h2; rw [node_create_parent fs i n nd hd] at hm ⊢; exact hb i hm
+    · rw [node_create_other fs d i n nd h2 h1] at hm ⊢; exact hb i hm
+
+theorem mkdirAllLoop_dirBit (c : Cfg) (mode : Nat) :
+    ∀ (rest : List Name) (fs : FS) (at_ : Pos) (tr : List Name),
+      DirBit fs → (fs.node at_.ino).dir = true → DirBit (mkdirAllLoop c mode rest fs at_ tr).1 := by
+  intro rest
+  induction rest with
+  | nil => intro fs at_ tr hb _; simpa [mkdirAllLoop] using hb
+  | cons part rest ih =>
+    intro fs at_ tr hb hd
+    unfold mkdirAllLoop
+    cases hl : fs.lookup at_.ino part with
+    | some n =>
+      simp only []
+      repeat' split
+      all_goals (try exact hb)
+      all_goals (apply ih _ _ _ hb; simp_all)
+    | none =>
+      have hb1 := dirBit_create hb at_.ino part (newDir mode) hd (by intro _; rfl)
+      simp only []
+      repeat' split
+      all_goals (try exact hb1)
+      all_goals (apply ih _ _ _ hb1; simp_all)
+
+theorem mkdirAll_dirBit (c : Cfg) (fs : FS) (p : Text) (perm : Nat) (hi : FS.Inv fs) (hb : DirBit fs) :
+    DirBit (mkdirAll c fs p perm).1 := by
+  unfold mkdirAll
+  simp only []
+  split
+  · exact hb
+  · have := mkdirAllLoop_dirBit c (modeDir ||| perm) ((parts p).filter (· ≠ dot)) fs { ino := 0 } [] hb hi.root
+    split <;> simp_all
+
+/-- a successful `Mkdir(path, perm)` -/
+theorem mkdir_ok {c : Cfg} {fs fs' : FS} {p : Text} {perm : Nat} (h : act c fs (.mkdir p perm) = (fs', none)) :
+    ∃ pi, getNode c fs (dir p) = .ok pi ∧ (fs.node pi).mode.testBit 31 = true ∧ fs.lookup pi (base p) = none ∧
+      fs' = (fs.create pi (base p) (newDir (modeDir ||| perm))).1 := by
+  simp only [act, step, parentOf] at h
+  cases hg : getNode c fs (dir p) with
+  | error e => simp [hg, errOf] at h
+  | ok pi =>
+    simp only [hg] at h
+    by_cases hd : (fs.node pi).mode.testBit 31 = true
+    · simp only [hd, Bool.not_true, Bool.false_eq_true, if_false] at h
+      by_cases hb : base p = dot ∨ base p = dotdot ∨ base p = slash
+      · simp [hb, errOf] at h
+      · simp only [hb, if_false] at h
+        cases hl : fs.lookup pi (base p) with
+        | some x => simp [hl, errOf] at h
+        | none =>
+          simp only [hl, Option.isSome_none, Bool.false_eq_true, if_false, Prod.mk.injEq] at h
+          exact ⟨pi, rfl, hd, hl, h.1.symm⟩
+    · simp [hd, errOf] at h
+
+
+
+theorem walkImpl_append (fs : FS) (r : Option (Text → Nat → Except Err (Ino × Nat))) :
+    ∀ (ps qs : List Name) (node : Ino) (tr : List Name) (cnt : Nat) (n : Ino) (c' : Nat),
+      walkImpl fs r ps node tr cnt = .ok (n, c') →
+      walkImpl fs r (ps ++ qs) node tr cnt = walkImpl fs r qs n (tr ++ ps) c' := by
+  intro ps
+  induction ps with
+  | nil =>
+    intro qs node tr cnt n c' h
+    simp only [walkImpl, Except.ok.injEq, Prod.mk.injEq] at h
+    obtain ⟨rfl, rfl⟩ := h
+    simp
+  | cons part rest ih =>
+    intro qs node tr cnt n c' h
+    rw [List.cons_append]
+    unfold walkImpl at h
+    conv => lhs; unfold walkImpl
+    simp only [] at h ⊢
+    by_cases hd : (fs.node node).dir = true
+    · simp only [hd, Bool.not_true, Bool.false_eq_true, if_false] at h ⊢
+      cases hl : fs.lookup node part with
+      | none => simp [hl] at h
+      | some child =>
+        simp only [hl] at h ⊢
+        by_cases hsym : (fs.node child).isSymlink = true
+        · simp only [hsym, if_true] at h ⊢
+          by_cases hc : cnt + 1 > maxLinks
+          · simp [hc] at h
+          · simp only [hc, if_false] at h ⊢
+            cases r with
+            | none => simp at h
+            | some f =>
+              simp only [] at h ⊢
+              cases hf : f (if isAbs (fs.node child).target then (fs.node child).target
+                  else join2 (joinNames tr) (fs.node child).target) (cnt + 1) with
+              | error e => simp [hf] at h
+              | ok v =>
+                obtain ⟨tn, cnt'⟩ := v
+                simp only [hf] at h ⊢
+                rw [ih qs tn (tr ++ [part]) cnt' n c' h]
+                simp
+        · simp only [hsym, Bool.false_eq_true, if_false] at h ⊢
+          rw [ih qs child (tr ++ [part]) cnt n c' h]
+          simp
+    · simp [hd] at h
+
+theorem parts_slash : parts slash = [] := by decide
+
+/-- the lookup of a path is the component walk from the root (also for `/`, whose component list is
+empty; not for `.`, which the code special-cases although its component list is `["."]`) -/
+theorem getNodeD_eq_walk (fs : FS) (d : Nat) (p : Text) (cnt : Nat) (hp : p ≠ dot) :
+    getNodeD fs (d + 1) p cnt = walkImpl fs (some (getNodeD fs d)) (parts p) 0 [] cnt := by
+  unfold getNodeD
+  by_cases hs : p = slash
+  · subst hs; simp [parts_slash, walkImpl]
+  · simp [hs, hp]
+
+
+
+/-- after `Mkdir(p, perm)` succeeded, `p` resolves to the directory that was just made (for paths
+whose component list is that of their `Dir` followed by their `Base`: every cleaned absolute path) -/
+theorem mkdir_then_resolve {c : Cfg} (hc : c.posix = false) {fs fs' : FS} (hi : FS.Inv fs) (hb : DirBit fs)
+    {p : Text} {perm : Nat} (h : act c fs (.mkdir p perm) = (fs', none))
+    (hsplit : parts p = parts (dir p) ++ [base p]) (hp : p ≠ slash ∧ p ≠ dot ∧ dir p ≠ dot)
+    (hperm : (modeDir ||| perm).testBit 27 = false) :
+    getNode c fs' p = .ok fs.nodes.length ∧ fs'.node fs.nodes.length = newDir (modeDir ||| perm) ∧
+      FS.Inv fs' ∧ fs'.nodes.length = fs.nodes.length + 1 := by
+  obtain ⟨pi, hg, hbit, hfree, rfl⟩ := mkdir_ok h
+  have hd : (fs.node pi).dir = true := hb pi hbit
+  have hext := ext_create hi pi (base p) (newDir (modeDir ||| perm)) hd hfree
+  have hg' := getNode_ext hc hext hg
+  have hnew := node_create_new fs pi (base p) (newDir (modeDir ||| perm)) hd
+  refine ⟨?_, hnew, hi.create pi _ _ hd rfl, by simp [FS.create, FS.alloc, FS.link]⟩
+  -- unfold both lookups into component walks
+  simp only [getNode, resolveFrom, hc, Bool.false_eq_true, if_false] at hg' ⊢
+  rw [getNodeD_eq_walk _ _ _ _ hp.2.2] at hg'
+  have hpd : p ≠ dot := hp.2.1
+  rw [getNodeD_eq_walk _ _ _ _ hpd, hsplit]
+  cases hw : walkImpl (fs.create pi (base p) (newDir (modeDir ||| perm))).1
+      (some (getNodeD (fs.create pi (base p) (newDir (modeDir ||| perm))).1 maxLinks)) (parts (dir p)) 0 [] 0 with
+  | error e => simp [hw, Except.map] at hg'
+  | ok v =>
+    obtain ⟨n, c'⟩ := v
+    have hn : n = pi := by simpa [hw, Except.map] using hg'
+    subst hn
+    rw [walkImpl_append _ _ _ _ _ _ _ _ _ hw]
+    unfold walkImpl
+    simp only [hext.dir n hd, Bool.not_true, Bool.false_eq_true, if_false, lookup_create fs n _ _ hd]
+    have hns : ((fs.create n (base p) (newDir (modeDir ||| perm))).1.node fs.nodes.length).isSymlink = false := by
+      rw [hnew]; exact hperm
+    simp [hns, walkImpl, Except.map]
+
+
+
+theorem length_create (fs : FS) (d : Nat) (n : Name) (nd : Inode) :
+    (fs.create d n nd).1.nodes.length = fs.nodes.length + 1 := by
+  simp [FS.create, FS.alloc, FS.link]
+
+theorem mkdirAllLoop_length (c : Cfg) (mode : Nat) :
+    ∀ (rest : List Name) (fs : FS) (at_ : Pos) (tr : List Name),
+      fs.nodes.length ≤ (mkdirAllLoop c mode rest fs at_ tr).1.nodes.length := by
+  intro rest
+  induction rest with
+  | nil => intro fs at_ tr; simp [mkdirAllLoop]
+  | cons part rest ih =>
+    intro fs at_ tr
+    unfold mkdirAllLoop
+    cases hl : fs.lookup at_.ino part with
+    | some n =>
+      simp only []
+      repeat' split
+      all_goals (try exact Nat.le_refl _)
+      all_goals (exact ih _ _ _)
+    | none =>
+      have h1 := length_create fs at_.ino part (newDir mode)
+      simp only []
+      repeat' split
+      all_goals (try (simp only []; omega))
+      all_goals (refine Nat.le_trans (m := (fs.create at_.ino part (newDir mode)).1.nodes.length) (by omega) (ih _ _ _))
+
+theorem mkdirAll_length (c : Cfg) (fs : FS) (p : Text) (perm : Nat) :
+    fs.nodes.length ≤ (mkdirAll c fs p perm).1.nodes.length := by
+  unfold mkdirAll
+  simp only []
+  split
+  · exact Nat.le_refl _
+  · have := mkdirAllLoop_length c (modeDir ||| perm) ((parts p).filter (· ≠ dot)) fs { ino := 0 } []
+    split <;> simp_all
+
 end Apko.Accounts
